@@ -141,8 +141,10 @@ def impl_getitem(case):
         return {"skip": "input is " + inp["k"]}
     idx = tuple(entry_obj(e) for e in case["index"])
     key = idx[0] if (len(idx) == 1 and case.get("unwrap")) else idx
+    got = None
     try:
-        out = vlib.plain(x[key])
+        got = x[key]
+        out = vlib.plain(got)
     except Exception as ex:  # noqa: BLE001
         out = vlib.plain(ex)
     extra = {}
@@ -152,6 +154,10 @@ def impl_getitem(case):
             # the Spec is applied to what SciPy says the matrix is (m.toarray()), not to the converted array
             extra["todense_ok"] = bool(d.shape == ref.shape and np.array_equal(d, ref))
             d = ref
+            if got is not None:
+                want = d[key]
+                gd = got.todense() if hasattr(got, "todense") else np.asarray(got)
+                extra["agree"] = bool(np.shape(gd) == np.shape(want) and np.array_equal(gd, want))
         npo = vlib.plain(d[key])
     except Exception as ex:  # noqa: BLE001
         npo = vlib.plain(ex)
@@ -440,7 +446,7 @@ def derived_inputs(rng, n, extents):
 
 SCIPY_OPS = ["sparse.GCXS.from_scipy_sparse(m)", "sparse.GCXS(m)", "sparse.asarray(m, format='gcxs')",
              "sparse.asarray(m, format='csr')", "sparse.asarray(m, format='csc')",
-             "sparse.GCXS.from_scipy_sparse(m).T", "sparse.GCXS(m, compressed_axes=[1])"]
+             "sparse.GCXS(m, compressed_axes=[1])"]
 
 
 def scipy_spec(rng, kind, fmt=None, shape=None):
@@ -450,8 +456,10 @@ def scipy_spec(rng, kind, fmt=None, shape=None):
              unsorted_dups (both)"""
     fmt = fmt or rng.choice(["csr", "csc"])
     shape = shape or [rng.choice([1, 2, 3, 4]), rng.choice([2, 3, 4, 5])]
+    if kind != "canonical":
+        shape = [max(shape[0], 2), max(shape[1], 2)]      # room for two entries in a row / column
     major, minor = (shape[0], shape[1]) if fmt == "csr" else (shape[1], shape[0])
-    while True:
+    for _attempt in range(10000):
         data, indices, indptr = [], [], [0]
         marked = False
         for _ in range(major):
@@ -475,6 +483,7 @@ def scipy_spec(rng, kind, fmt=None, shape=None):
             if kind == "unsorted_dups" and len(indices) == len(set(zip(_rows_of(indptr), indices, strict=True))):
                 continue
             return {"fmt": fmt, "shape": shape, "data": data, "indices": indices, "indptr": indptr, "kind": kind}
+    raise RuntimeError("scipy_spec: no matrix of kind " + kind)
 
 
 def _rows_of(indptr):
@@ -814,8 +823,8 @@ def campaign_index(build, tier, seed, report, budget=1):
         what = KIND_WHAT.get(kind)
         vkind = KINDS.get(kind, "value")
         if cl == 15:
-            vkind = "representation"
-            what = ("the array being indexed is not in canonical form (unsorted or REPEATED entries inside a row, or inconsistent "
+            vkind = "value" if r.get("agree") is False else "representation"
+            what = (("x[index] differs from NumPy on m.toarray(); reason: " if r.get("agree") is False else "") + "the array being indexed is not in canonical form (unsorted or REPEATED entries inside a row, or inconsistent "
                     "indptr): a well-formedness failure of the producer " + str(c.get("op") or "constructor") +
                     "; indexing such an array reads only the first of the repeated entries")
         if cl == 14:
